@@ -61,6 +61,9 @@ def run(prog, report, tier):
     causal.run_sites(prog, report, which=('sound', 'complete'),
                      files={kernels.SL})
     panels.check_straight(prog, report)
+    panels.check_integrate(prog, report, rules=('partition', 'precond'))
+    panels.check_exact_splitter(prog, report)
+    panels.check_binding(prog, report)
     fi, pairs = problem_pairs(prog, report)
     # the domain named in problem_helper is the curve class of that name in
     # the driver
